@@ -440,7 +440,7 @@ theorem setUseLoop_inv {A C : List Ent} (next : Nat) (us : List Use) :
         simp only [hr, pure, Except.pure, Except.ok.injEq, Prod.mk.injEq] at h
         rcases h with ⟨rfl, _, rfl⟩
         have hsame : ∀ t : List Use, entsOf liveU entU (done ++ { d with modulePath := w.2 } :: t) = entsOf liveU entU (done ++ d :: t) := by
-          intro t; simp [entsOf, List.filter_append, List.filter_cons, liveU, entU]
+          intro t; simp [entsOf, List.filter_append, List.filter_cons, liveU]; split <;> rfl
         have hm1 : Match (A ++ (entsOf liveU entU ((done ++ [{ d with modulePath := w.2 }]) ++ ds) ++ C)) (view syn.stmts) := by
           rw [List.append_assoc, List.singleton_append, hsame]; exact hm
         rcases ih _ _ _ _ _ _ (fun u hu => hlive u (List.mem_cons_of_mem _ hu)) hw hm1 hr with ⟨r1, r2⟩
@@ -622,5 +622,65 @@ theorem InvW_empty : InvW (loadWork {}) := by
 theorem typed_eq_tree_work (e e' : EWork) (ops : List Op) (res : List Bool) (hi : InvW e)
     (hv : ∀ op ∈ ops, ValidArgsW op) (h : runOps applyWork e ops [] 0 = .done e' res) : InvW (workCleanup e') :=
   workCleanup_inv e' (runOpsWork_inv ops e [] 0 e' res hv hi h)
+
+/-! ### the `use` lines of the tree after SetUse -/
+
+theorem verbs_ne_use : B "go" ≠ B "use" ∧ B "toolchain" ≠ B "use" ∧ B "godebug" ≠ B "use" ∧ B "replace" ≠ B "use" := by
+  decide +kernel
+
+theorem InvW.line_entry {e : EWork} (hi : InvW e) (v : VLine) (hv : v ∈ view e.f.syn.stmts) :
+    ∃ en ∈ entriesW e.f, en.id = v.id ∧ en.acc v.toks v.suffix := by
+  rcases hi.mtch.surj v hv with ⟨en, hen, hid⟩
+  rcases hi.mtch.cover en hen with ⟨v', hv', hid', hacc⟩
+  have : v' = v := view_unique hi.tree.nodup hv' hv (hid'.trans hid)
+  subst this
+  exact ⟨en, hen, hid, hacc⟩
+
+theorem InvW.use_line {e : EWork} (hi : InvW e) (u : Use) (hu : u ∈ e.f.use) (hl : u.path ≠ []) :
+    ∃ v ∈ view e.f.syn.stmts, v.id = u.lineId ∧ v.toks = [B "use", autoQuote u.path] := by
+  have hen : entU u ∈ entriesW e.f := by
+    rw [entriesW_use]
+    exact List.mem_append_right _ (List.mem_append_left _ ((mem_entsOf liveU entU).2 ⟨u, hu, ne_nil_live hl, rfl⟩))
+  rcases hi.mtch.cover _ hen with ⟨v, hv, hid, hacc⟩
+  exact ⟨v, hv, hid, hacc⟩
+
+theorem InvW.use_line_entry {e : EWork} (hi : InvW e) (v : VLine) (hv : v ∈ view e.f.syn.stmts)
+    (hverb : v.toks.head? = some (B "use")) :
+    ∃ u ∈ e.f.use, liveU u = true ∧ u.lineId = v.id ∧ v.toks = [B "use", autoQuote u.path] := by
+  rcases hi.line_entry v hv with ⟨en, hen, hid, hacc⟩
+  rcases verbs_ne_use with ⟨n1, n2, n3, n4⟩
+  simp only [entriesW, List.mem_append, List.mem_map, Option.mem_toList, entsOf, List.mem_filter] at hen
+  rcases hen with ⟨x, _, rfl⟩ | ⟨x, _, rfl⟩ | ⟨x, _, rfl⟩ | ⟨x, hx, rfl⟩ | ⟨x, _, rfl⟩
+  · simp only [entGo] at hacc; rw [hacc] at hverb; simp at hverb; exact absurd hverb n1
+  · simp only [entTc] at hacc; rw [hacc] at hverb; simp at hverb; exact absurd hverb n2
+  · simp only [entG] at hacc; rw [hacc] at hverb; simp at hverb; exact absurd hverb n3
+  · exact ⟨x, hx.1, hx.2, hid, hacc⟩
+  · simp only [entRp, replaceToks] at hacc; rw [hacc] at hverb; simp at hverb; exact absurd hverb n4
+
+/-- **SetUse on the tree**: after `SetUse dirs` and Cleanup the tree has a live line `use <dir>` for every requested
+    directory, and every live `use` line is one of them -/
+theorem setUse_tree_exact (e e' : EWork) (dirs : List (Bytes × Bytes)) (perm : List (Bytes × Bytes) → List (Bytes × Bytes))
+    (hperm : ∀ l, (perm l).Perm l) (hg : GoodUse dirs) (hi : InvW e) (hlive : ∀ u ∈ e.f.use, liveU u = true)
+    (h : setUse e dirs perm = .ok e') :
+    InvW (workCleanup e') ∧
+    (∀ d ∈ dirs, ∃ v ∈ view (workCleanup e').f.syn.stmts, v.toks = [B "use", autoQuote d.1]) ∧
+    (∀ v ∈ view (workCleanup e').f.syn.stmts, v.toks.head? = some (B "use") →
+      ∃ d ∈ dirs, v.toks = [B "use", autoQuote d.1]) := by
+  have hi' := workCleanup_inv e' (setUse_inv e e' dirs perm hperm hg hi hlive h)
+  rcases setUse_exact e e' dirs perm hperm hg hi.winv h with ⟨hp, _, hsub⟩
+  refine ⟨hi', ?_, ?_⟩
+  · intro d hd
+    have hmem : d.1 ∈ (absOfWork (workCleanup e').f).use := hp.symm.subset (List.mem_map.2 ⟨d, hd, rfl⟩)
+    simp only [absOfWork, List.mem_map] at hmem
+    rcases hmem with ⟨u, hu, heq⟩
+    have hl : u.path ≠ [] := by rw [heq]; exact hg.2 d hd
+    rcases hi'.use_line u hu hl with ⟨v, hv, _, htoks⟩
+    exact ⟨v, hv, by rw [htoks, heq]⟩
+  · intro v hv hverb
+    rcases hi'.use_line_entry v hv hverb with ⟨u, hu, _, _, htoks⟩
+    have hmem : u.path ∈ (absOfWork (workCleanup e').f).use := by
+      simp only [absOfWork, List.mem_map]; exact ⟨u, hu, rfl⟩
+    rcases hsub _ hmem with ⟨d, hd, heq⟩
+    exact ⟨d, hd, by rw [htoks, heq]⟩
 
 end ModVerif.Modfile.Edit
